@@ -3,7 +3,7 @@ import heapq, itertools, math
 import numpy as np
 
 PID = "C20"
-THEOREMS = ["spread_sound", "spread_upper", "spread_attained", "dissolve_labels_spec", "dissolve_idxs_spec"]
+THEOREMS = ["spread_sound", "spread_upper", "spread_attained", "dissolve_labels_spec", "dissolve_idxs_spec", "gen_spread2d_total"]
 RULE = ("observation / mask patterns on shapes up to 2x3 (exhaustive over {nodata, a, b} x mask), random rasters to 8x8 "
         "(12x12 thorough) with integer frictions 1..3 on 3-4-5 cells (all float32 sums exact) through gis_utils.spread2d, "
         "compared with the model and with an independent Dijkstra; geographic grids on both hemispheres and both "
